@@ -110,7 +110,12 @@ def child_main(args) -> int:
     known_hits: Counter = Counter()
     keep = []
     for v in kernel.LOG.violations:
-        if v["property"] == args.prop and v.get("mech") in found:
+        if v["property"] != args.prop:
+            # another property's monitor fired while this workload ran: counted, never shipped - a flood of them must
+            # not crowd this property's own violations out of the bounded list either (seen with seed C03-P: 5 000
+            # C02-labelled records in front of 700 C03 ones, of which 2 reached the parent)
+            kernel.LOG.counters[f"cross:{v['property']}:{v['monitor']}"] += 1
+        elif v.get("mech") in found:
             known_hits[v["mech"]] += 1
         else:
             keep.append(v)
